@@ -1098,8 +1098,11 @@ theorem peraseRegion_eq (t : PTier α) (a b : α) :
     t.eraseRegion a b true = (do
       let nt ← t.new
       let ct ← nt.crop a b false
-      let ps0 ← ct.ps.reverse.foldlM deletePt nt.ps
-      PTier.new { nt with ps := ps0 } (ps := some (peraseList a b ps0)) (hi := some (shiftBack a b nt.hi))) := rfl
+      if decide (clipHi true t.hi b ≤ clipLo true t.lo a) then pure nt
+      else do
+        let ps0 ← ct.ps.reverse.foldlM deletePt nt.ps
+        PTier.new { nt with ps := ps0 } (ps := some (peraseList (clipLo true t.lo a) (clipHi true t.hi b) ps0))
+          (hi := some (shiftBack (clipLo true t.lo a) (clipHi true t.hi b) nt.hi))) := rfl
 
 theorem perase_sorted (a b : α) (hab : a ≤ b) (ps : List (Pt α)) (h : SortedT ps) :
     SortedT (peraseList a b ps) := by
